@@ -17,6 +17,7 @@ import (
 	"time"
 	"unsafe"
 
+	"github.com/q191201771/lal/pkg/base"
 	"github.com/q191201771/lal/pkg/logic"
 
 	"verif/gen"
@@ -543,5 +544,48 @@ func useLalHttpNotify(sm *logic.ServerManager) error {
 	}
 	h := logic.NewHttpNotify(cfg.HttpNotifyConfig, cfg.ServerId)
 	reflect.NewAt(nh.Type(), unsafe.Pointer(nh.UnsafeAddr())).Elem().Set(reflect.ValueOf(h))
+	return nil
+}
+
+// ---- an admission callback that refuses some HLS viewers ----------------------------------------------------------
+
+// refusingAuth wraps the manager's authentication: every n-th HLS viewer is refused at admission
+// (IAuthentication.OnSubStart returns an error), everything else is decided by the wrapped one.
+type refusingAuth struct {
+	inner logic.IAuthentication
+	every int64
+	seen  atomic.Int64
+}
+
+func (a *refusingAuth) OnPubStart(info base.PubStartInfo) error { return a.inner.OnPubStart(info) }
+func (a *refusingAuth) OnHls(streamName, urlParam string) error {
+	return a.inner.OnHls(streamName, urlParam)
+}
+func (a *refusingAuth) OnSubStart(info base.SubStartInfo) error {
+	if info.Protocol == base.SessionProtocolHlsStr && a.seen.Add(1)%a.every == 0 {
+		count("hls-viewer-refused", 1)
+		return fmt.Errorf("c20: hls viewer refused")
+	}
+	return a.inner.OnSubStart(info)
+}
+
+// useRefusingAuth installs the wrapper.  logic.Option.Authentication is the exported seam for this, but
+// harness/inproc builds the manager without it, so the field is set through reflection right after construction
+// (like useLalHttpNotify), before any session exists.
+func useRefusingAuth(sm *logic.ServerManager, every int) error {
+	f := reflect.ValueOf(sm).Elem().FieldByName("option")
+	if !f.IsValid() {
+		return fmt.Errorf("ServerManager has no field option")
+	}
+	au := f.FieldByName("Authentication")
+	if !au.IsValid() || !au.CanAddr() {
+		return fmt.Errorf("Option has no addressable field Authentication")
+	}
+	slot := reflect.NewAt(au.Type(), unsafe.Pointer(au.UnsafeAddr())).Elem()
+	inner, ok := slot.Interface().(logic.IAuthentication)
+	if !ok || inner == nil {
+		return fmt.Errorf("ServerManager has no authentication installed")
+	}
+	slot.Set(reflect.ValueOf(&refusingAuth{inner: inner, every: int64(every)}))
 	return nil
 }
